@@ -34,5 +34,17 @@ PROPS["C11"] = {
             "RemoveResource.undo is a known finding); distinct change objects in the lists; single-fault assumption for exceptional posts.",
     "undecided": ["selective undo beyond the bounded domain", "leaf changes' inverse law over a concrete file-system model"],
 }
+PROPS["C18"] = {
+    "sidecars": ["c18_datafiles.py", "c18_history_io.py", "c18_memorydb.py"],
+    "level": "proof",
+    "claim": "Proof level under the stated stream model: _DataFiles.read_data lets no exception escape whatever the data file holds and returns "
+             "None or the one complete saved value (loop invariant over the record stream); History._load_history and MemoryDB._load_files raise "
+             "nothing on None or a complete value; History.write saves exactly the two-list shape the loader indexes.  Together: every crash state "
+             "of the in-place save (empty file, strict prefix of the new pickle, stale tail) reads as old, new or empty.  The crash-state "
+             "enumeration itself is a bounded stand-in on real files.",
+    "note": "pickle.load external contract (next object / EOFError at clean end / any exception on a truncated or corrupt pickle); open() does not fail; "
+            "a strict prefix of a pickle never unpickles to a complete value (pickle format: STOP opcode is last); with-statement exit neither raises nor suppresses.",
+    "undecided": ["atomicity of the write itself (write_data still truncates in place: the old version is not preserved across a crash, only openability is)"],
+}
 _NB = "check not built yet (framework under construction; see DESIGN.md section 8)"
 NOT_APPLICABLE = {"C%02d" % i: _NB for i in range(1, 21)}
